@@ -139,7 +139,8 @@ theorem triEdgeI_split (R L : V3 ℝ) (τ : ℝ) (h0 : 0 < τ) (h1 : τ < 1) (hL
 
 /-- the solid angles of the two pieces add up to the solid angle of the whole (Van Oosterom–Strackee arctan form with the 2π clamp of
 `triangle_Bfield`, observer at `obs`).  True for every observer off the triangle's plane (the three signed solid angles have the same
-sign and are smaller than 2π in absolute value); NOT proved here -/
+sign and are smaller than 2π in absolute value) at which the whole's value is not clamped: Lemmas/SolidAngle.lean
+(`solidAngleAdditive_iff_of_offplane`); not proved in this file -/
 def SolidAngleAdditive (a m b c obs : V3 ℝ) : Prop :=
   solidAngle (a - obs) (m - obs) (c - obs) (Kern.norm (a - obs)) (Kern.norm (m - obs)) (Kern.norm (c - obs)) +
     solidAngle (m - obs) (b - obs) (c - obs) (Kern.norm (m - obs)) (Kern.norm (b - obs)) (Kern.norm (c - obs)) =
